@@ -69,7 +69,7 @@ func c05Case(c *mon.Ctx, i int, record bool) {
 	if nU := len(W.Objs) + c.Pick(12000, 400000); i >= nU {
 		// directed families, sampled from the end so the SAN-sibling family is always complete
 		k := directedCount(c) - 1 - (i-nU)*c.Pick(6, 1)
-		if nSib := len(sanSeeds) * 2; i-nU < nSib {
+		if nTail := len(sanSeeds)*2 + genPoolSize(); i-nU < nTail { // the two small families at the end are always complete
 			k = directedCount(c) - 1 - (i - nU)
 		}
 		if k < 0 {
